@@ -83,7 +83,7 @@ INFMT = {"ymd": "%F", "ymcw": "%Y-%m-%c-%w", "ywd": "%G-W%V-%u", "yd": "%Y-%j", 
 OUTKEY = {"ymd": "F", "ymcw": "ymcw", "ywd": "ywd", "yd": "yd", "ldn": "ldn", "mdn": "mdn", "jdn": "jdn"}
 
 
-def validate_and_report(rep, module, cfg, execs, keyfn, label, group=None, per_group_reject=6):
+def validate_and_report(rep, module, cfg, execs, keyfn, label, group=None, per_group_reject=6, **kw):
     """validate executions by TLC; with `group` (execution -> class name) every class is validated on its own and
     stops after per_group_reject rejections, so that one failing class neither hides nor starves the others"""
     if not execs:
@@ -96,7 +96,7 @@ def validate_and_report(rep, module, cfg, execs, keyfn, label, group=None, per_g
             groups.setdefault(group(ex), []).append(ex)
     tot_val = tot_rej = 0
     for g, exs in sorted(groups.items()):
-        nval, rejected, st = core.validate_batches(module, cfg, exs, max_reject=50 if group is None else per_group_reject)
+        nval, rejected, st = core.validate_batches(module, cfg, exs, max_reject=50 if group is None else per_group_reject, **kw)
         rep.cov["states"] += st
         rep.cov["transitions"] += st
         rep.count(traces=nval, evaluations=len(exs), distinct=len(exs))
